@@ -477,6 +477,18 @@ func c08Run(e *Env) {
 				}})
 			}
 		}
+		// a request of the peer that carries the token bytes of a live observation (tokens are scoped per direction): it
+		// is a request for the application's handler, not a notification
+		if t.Chance(1, 12) {
+			for _, o := range obs {
+				if o.registered && !o.cancelStarted && o.token != nil && o.regObs {
+					w.Queue(&WMsg{Type: TNON, Code: 1, MID: w.NextPeerMID(), Token: o.token, Opts: []WOpt{{Num: OptURIPath, Val: []byte("peer-asks")}}, Payload: []byte("peer-request")}, "request of the peer with the token of an observation")
+					e.Fault("msg.peerRequestWithObservationToken")
+					e.Probe("peer.requestCarriesObservationToken")
+					break
+				}
+			}
+		}
 		// a notification for a token that was never registered (unrelated, or one zero byte longer than a registered one)
 		if t.Chance(1, 10) {
 			noteID++
